@@ -21,9 +21,15 @@ INF = float("inf")
 # the same class of functions / operators written with another shipped class at the edge of its parameter range
 # (base class -> [(twin class, parameters as a function of the base's, reuse_gradient to keep)])
 PARAM_TWINS = {
-    "SmoothConvexFunction": [("SmoothStronglyConvexFunction", lambda p: {"mu": 0.0, "L": p["L"]}, None)],
+    "SmoothConvexFunction": [("SmoothStronglyConvexFunction", lambda p: {"mu": 0.0, "L": p["L"]}, None),
+                             ("SmoothConvexLipschitzFunction", lambda p: {"L": p["L"], "M": INF}, None)],
     "ConvexFunction": [("StronglyConvexFunction", lambda p: {"mu": 0.0}, None),
-                       ("SmoothConvexFunction", lambda p: {"L": INF}, False)],
+                       ("SmoothConvexFunction", lambda p: {"L": INF}, False),
+                       ("ConvexLipschitzFunction", lambda p: {"M": INF}, None)],
+    "StronglyMonotoneOperator": [("LipschitzStronglyMonotoneOperator", lambda p: {"mu": p["mu"], "L": INF}, False)],
+    # quadratics whose Hessian has all its eigenvalues equal to L: the whole class of L-smooth L-strongly convex functions
+    "SmoothStronglyConvexQuadraticFunction": [("SmoothStronglyConvexFunction",
+                                               lambda p: {"mu": p["L"], "L": p["L"]}, None, {"mu": "L"})],
     "StronglyConvexFunction": [("SmoothStronglyConvexFunction", lambda p: {"mu": p["mu"], "L": INF}, False)],
     "ConvexLipschitzFunction": [("SmoothConvexLipschitzFunction", lambda p: {"L": INF, "M": p["M"]}, False)],
     "MonotoneOperator": [("StronglyMonotoneOperator", lambda p: {"mu": 0.0}, None),
@@ -37,19 +43,28 @@ def param_twin(ops, rng):
     """Rewrite one leaf function of the model into an equivalent class at the edge of its parameter range."""
     cands = [o for o in ops if o["op"] == "func" and o["cls"] in PARAM_TWINS and "reuse_gradient" not in o]
     if not cands:
-        return None, None
+        return None, None, None
     fop = rng.choice(cands)
-    cls2, fn, reuse = rng.choice(PARAM_TWINS[fop["cls"]])
+    tw = rng.choice(PARAM_TWINS[fop["cls"]])
+    cls2, fn, reuse = tw[:3]
     try:
         params = fn(fop.get("params") or {})
     except KeyError:
-        return None, None
+        return None, None, None
     new = dict(fop)
     new["cls"] = cls2
     new["params"] = params
     if reuse is not None:
         new["reuse_gradient"] = reuse
-    return [new if o is fop else o for o in ops], "%s=%s" % (fop["cls"], cls2)
+    base = ops
+    if len(tw) > 3:
+        # the equivalence only holds at one parameter value of the base class too: move the base there
+        b2 = dict(fop)
+        b2["params"] = dict(fop.get("params") or {})
+        for k, src in tw[3].items():
+            b2["params"][k] = b2["params"][src]
+        base = [b2 if o is fop else o for o in ops]
+    return base, [new if o is fop else o for o in ops], "%s=%s" % (fop["cls"], cls2)
 
 
 def produced(op):
@@ -252,7 +267,9 @@ class C04(Prop):
             plan["case"] = "order-value"
             plan["tag"] = plan["tag"].replace("route", "same-samples-through-c*f" if c else "route-none")
         elif case == "param-twin":
-            alt, what = param_twin(b.ops, rng)
+            base2, alt, what = param_twin(b.ops, rng)
+            if base2 is not None:
+                plan["base"] = base2
             plan["alt"] = alt if alt is not None else shuffle_schedule(b.ops, rng)
             plan["alt2"] = None
             plan["ext_kind"] = None
@@ -322,7 +339,10 @@ class C04(Prop):
         for k in legs:
             n = len(plan["base"] if k == "base" else plan[k])
             sol[k] = outs[k][n] if len(outs[k]) > n else {}
-        reached = all(sol[k].get("ncalls") for k in legs)
+        # a leg whose solve raised before anything reached the solver still has an outcome to compare, as long as
+        # another leg of the same plan did reach the solver (the model is then known to be a legal one)
+        reached = all(sol[k].get("ncalls") or sol[k].get("status") == "exc" for k in legs) and \
+            any(sol[k].get("ncalls") for k in legs)
         if not reached:
             return [], {"nontrivial": False, "noverdict": True}
         if any(sol[k].get("spontaneous") for k in legs):
@@ -360,8 +380,12 @@ class C04(Prop):
                     continue
                 if not (okb and oko) or vb is None:
                     if okb != oko:
-                        viol.append({"oracle": "C04/value", "signature": "solve-outcome-depends-on:" + case,
-                                     "detail": {"base": base.get("exc_type"), "other": other.get("exc_type")}})
+                        what = plan.get("tag", "").split("/")[0]
+                        what = (":" + what.split(":", 1)[1]) if what.startswith("param-twin:") else ""
+                        viol.append({"oracle": "C04/value", "signature": "solve-outcome-depends-on:" + case + ":" +
+                                     str(base.get("exc_type") or other.get("exc_type")) + what,
+                                     "detail": {"base": base.get("exc_type"), "other": other.get("exc_type"),
+                                                "msg": (base.get("msg") or other.get("msg") or "")[:120]}})
                     continue
                 a, b = float.fromhex(vb), float.fromhex(vo)
                 tol = 1e-3 if plan.get("ext_kind") == "aliased_sample" else 1e-4
